@@ -369,6 +369,40 @@ def r2b_backend_always_invoked(run, F):
            "the skip flag is a literal in every arm of the argument resolution and true in exactly one (emit): %s" % vals)
 
 
+def r1b_source_lexed_as_read(run, F):
+    """A zero-byte file is a compile error (E101), and the tool must say so and fail.  The driver pads an empty source with a blank
+    so that the *report* has something to anchor on -- after lexing.  Whatever is handed to lexer::lex is the file's contents
+    as read: no statement before the lex call in that loop body changes the source text (padded first, the lexer sees a valid
+    empty module, the tool prints Done. and exits 0)."""
+    c = F.bin.bodies.get("compile_to_ir_using_alpha")
+    run.require(c is not None and "hir" in c, "compile_to_ir_using_alpha not found")
+    sites = []
+    for blk in [x for x in walk(c["hir"]) if x.get("k") == "Block"]:
+        st = blk.get("stmts", [])
+        for i, s_ in enumerate(st):
+            lex = [x for x in hirq.calls(s_) if (hirq.callee(x) or "").endswith("alpha::lexer::lex")]
+            if not lex or any(y.get("k") == "Block" and any(z is lex[0] for z in walk(y)) for y in walk(s_) if y is not s_ and y.get("k") == "Block"):
+                continue
+            src = [y for y in walk(lex[0]["a"][0]) if y.get("k") == "Path" and y.get("rk") == "Local"] if lex[0].get("a") else []
+            if not src:
+                continue
+            lid = src[0].get("lid")
+            before = []
+            for t in st[:i]:
+                for x in hirq.calls(t):
+                    if x.get("k") == "MethodCall" and x.get("name") in ("push_str", "push", "insert", "insert_str", "clear", "truncate", "replace_range", "extend", "retain", "drain", "pop", "remove") \
+                            and any(y.get("k") == "Path" and y.get("lid") == lid for y in walk(x["recv"])):
+                        before.append(x)
+                for x in walk(t):
+                    if x.get("k") in ("Assign", "AssignOp") and hirq.unwrap_trivial(x["lhs"]).get("lid") == lid:
+                        before.append(x)
+            sites.append((lex[0], before))
+    run.require(len(sites) >= 1, "compile_to_ir_using_alpha: the call of lexer::lex was not found in a statement list")
+    for lx, before in sites:
+        run.ob("R1-ERRORS-FAIL", "the source is lexed as read", not before, F.where(c, before[0]) if before else F.where(c, lx),
+               "no statement before lexer::lex changes the source text (%d do): an empty file must reach the lexer empty (E101)" % len(before))
+
+
 def r5_stdout(run, F):
     methods = [b for p, b in F.lib.bodies.items() if p.startswith(SO) and "{closure" not in p and p != SO + "new" and "mir" in b]
     run.require(len(methods) >= 15, "StdOut methods not found (%d)" % len(methods))
@@ -491,6 +525,7 @@ def check(run):
     r1_status(run, F)
     r2_output(run, F)
     r2b_backend_always_invoked(run, F)
+    r1b_source_lexed_as_read(run, F)
     r3_backend(run, F)
     r4_outdir(run, F)
     r5_stdout(run, F)
